@@ -207,6 +207,23 @@ def verus_unit(name, cfg, repo, build, tier):
     r['cheats'] = scan_cheats(text)
     run = run_verus(path, cfg.get('rlimit', 30))
     p = parse_verus(run, text, blocks, linemap)
+    # an edited loop (e.g. `for` rewritten as `while`) has no `decreases`: Verus refuses the unit. Termination is not one of
+    # the claimed properties (C09 is not applicable), so re-run with the termination check switched off for exactly those
+    # functions and say so in the evidence; every other obligation of the function is still generated.
+    r['termination_unchecked'] = []
+    for _attempt in range(4):
+        mm = re.search(r'loop must have a decreases clause @(\d+)', p.get('reason', '')) if p['status'] == 'undecided' else None
+        if not mm: break
+        ln = int(mm.group(1))
+        b = next((b for b in blocks if b['kind'] == 'FN' and b['first_line'] <= ln <= b['last_line']), None)
+        if b is None: break
+        L = text.split('\n')
+        L[b['first_line'] - 1] = '#[verifier::exec_allows_no_decreases_clause] ' + L[b['first_line'] - 1]
+        text = '\n'.join(L)
+        open(path, 'w').write(text)
+        r['termination_unchecked'].append(b['owner'] + '::' + b['name'])
+        run = run_verus(path, cfg.get('rlimit', 30))
+        p = parse_verus(run, text, blocks, linemap)
     if p.get('rlimit') and p['status'] == 'ok':
         run = run_verus(path, cfg.get('rlimit', 30) * 10)
         p = parse_verus(run, text, blocks, linemap)
@@ -214,6 +231,13 @@ def verus_unit(name, cfg, repo, build, tier):
             p.update(status='undecided', reason='resource limit exceeded after retry with 10x rlimit: ' + '; '.join(p['rlimit'][:3]))
     r.update(p)
     r['cmd'] = run['cmd']
+    # a loop of these functions was restructured (no `decreases` fits any more): the inserted invariants were written for the
+    # old loop form, so a failed obligation there is not evidence against the code: undecided, never a violation
+    if r['status'] == 'ok' and r['termination_unchecked']:
+        hit = [d for d in r['diags'] if d['fn'] in r['termination_unchecked']]
+        if hit:
+            r.update(status='undecided', reason='loop restructured in %s: the loop annotations no longer fit (%s)' % (hit[0]['fn'], hit[0]['message']))
+            r['diags'] = [d for d in r['diags'] if d['fn'] not in r['termination_unchecked']]
     # a diagnostic outside every extracted function is a failure of the proof infrastructure, not of the code
     if r['status'] == 'ok':
         stray = [d for d in r['diags'] if d['block'] is None]
